@@ -1,6 +1,7 @@
 import ShellOp.Util
 import ShellOp.Model.Retry
 import ShellOp.Model.HookOutput
+import ShellOp.Model.Wait
 import ShellOp.Generated.Facts
 /-! Line-protocol suite for C04 (retry / back-off / allowFailure). Core-only.
 
@@ -21,6 +22,9 @@ oracle begin q=<q> task=<id> gap=<ns> ctxs=…  → retry of a failed task: same
 oracle nocombine q=<q> ctxs=… queue=<ids>  → (C07.6) ungrouped Synchronization head: own contexts, queue untouched
 oracle end q=<q> ok=… task=<id> ctxs=… sleep=<ns> after=<id>,<af>,<ctxs>|…   → the property clauses
 ```
+`cancel q=<q>` → `wait=<0|1> pending=<0|1>`: a `CancelTaskDelay()` call (the harness makes it only while
+the handler of the queue runs: no wait in progress, nothing stays pending). `exit=sig<n>`: the hook
+process was terminated by signal n (no exit status).
 Instead of `ok=<0|1>` the `end` / `oracle end` lines may carry what the hook left behind:
 `exit=<code> metrics=<hex|-> patch=<hex|-> papply=<0|1>` (file texts as hex bytes; `papply` = the
 operations of the patch file, if it is parsable, can be applied to the cluster). Whether that is a
@@ -134,18 +138,22 @@ def parseAfter (s : String) : Option (List Task) :=
         some { id := ← id.toNat?, allowFailure := ← bool? af, ctxs := ← parseCtxs ctxs }
       | _ => none
 
+/-- `exit=<code>` (the process exited with this status) or `exit=sig<n>` (terminated by signal n). -/
+def procEnd? (s : String) : Option HookOutput.ProcEnd :=
+  if s.startsWith "sig" then (s.drop 3).toNat?.map .signaled else s.toNat?.map .exited
+
 /-- The outcome of a hook run as the line states it: `ok=<0|1>`, or decided from the exit code and
 the output files (`none`: malformed line or a patch text outside the decided domain). -/
 def outcome? (rest : List String) : Option Bool :=
   match kv? "metrics" rest with
   | none => bool? ((kv? "ok" rest).getD "1")
   | some m => do
-    let exit ← natKv "exit" rest 0
+    let exit ← procEnd? ((kv? "exit" rest).getD "0")
     let mt ← unhex m
     let pt ← unhex ((kv? "patch" rest).getD "-")
     let papply ← bool? ((kv? "papply" rest).getD "1")
     let pv ← HookOutput.patchVerdict pt
-    some (HookOutput.hookOk exit mt (pv && (papply || (HookOutput.skipWs pt).isEmpty)))
+    some (HookOutput.runOk exit mt (pv && (papply || (HookOutput.skipWs pt).isEmpty)))
 
 /-- Items of the queue as the code sees them while a hook is running. -/
 def curItems (cfg : Cfg) (q : QSt) : List Task :=
@@ -172,7 +180,13 @@ def oracleEnd (view : List Ctx → List Ctx) (s0 : Retry.State) (initial : Nat) 
       -- a failed run
       let lost := (s0.items.filter (fun b => !b.allowFailure)).flatMap fun b =>
         b.ctxs.filter (fun c => !covered c (pendingNF after))
+      -- binding names are not unique: contexts of different tasks can be equal. An ungrouped context
+      -- is never compacted away, so it must be there as many times as before.
+      let nfBefore := pendingNF s0.items
+      let nfAfter := pendingNF after
+      let fewer := (nfBefore.filter fun c => c.group == 0 && nfBefore.count c > nfAfter.count c).eraseDups
       if !lost.isEmpty then s!"false no_discard lost={showCtxs lost}"
+      else if !fewer.isEmpty then s!"false no_discard fewer-copies-of={showCtxs fewer}"
       else if t.allowFailure then
         if after.any (·.id == t.id) then "false allowFailure-task-not-dropped"
         else if sleep != 0 then "false allowFailure-but-backoff"
@@ -242,6 +256,15 @@ def step (st : St) (toks : List String) : St × String :=
           match h.ran with
           | none => (st', s!"norun task={t.id} queue={showIds h.items}")
           | some cs => (st', s!"exec task={t.id} hook={t.hook} ctxs={showCtxs (hookViewV (st.cfg.version t.hook) cs)} queue={showIds h.items}")
+  | "cancel" :: rest =>
+    -- `CancelTaskDelay()`: while the handler runs no wait loop is in progress; otherwise the worker
+    -- is inside `waitForTask` (idle queue or back-off)
+    match natKv "q" rest 0 with
+    | none => (st, "bad-op")
+    | some qn =>
+      let f0 : Wait.Flags := { inProgress := !(st.q qn).running.isSome, cancel := false }
+      let f := Wait.cancelTaskDelay f0
+      (st, s!"wait={b01 f.inProgress} pending={b01 f.cancel}")
   | "metricsfile" :: rest =>
     match (kv? "hex" rest).bind unhex with
     | none => (st, "bad-op")
